@@ -27,6 +27,7 @@ def parseObs? (toks : List String) : Option Obs :=
   | ["idle", i] => do pure (.idle (← parseNat? i))
   | ["close", i] => do pure (.close (← parseNat? i))
   | ["stall", i] => do pure (.stall (← parseNat? i))
+  | ["estab", i] => do pure (.estab (← parseNat? i))
   | ["resume", i] => do pure (.resume (← parseNat? i))
   | ["getpanic"] => some (.bad "Get/panic")
   | ["geterr"] => some (.bad "Get/error")
